@@ -45,7 +45,7 @@ def run(ctx):
     for si, n in enumerate(names, 1):
         fam = c02.SYNTH_MOLS if os.sep in n else c02.FAMILY[n]
         pool = fam + c02.OUTSIDE[:2]
-        npairs = (60 if thorough else 4)
+        npairs = (60 if thorough else (1 if fam is c02.PPYL else 4))
         mixes = []
         for _ in range(npairs):
             a, b = rng_.choice(pool), rng_.choice(pool)
@@ -53,13 +53,18 @@ def run(ctx):
             mixes.append([b, a])                       # component order must not matter
         mixes.append([fam[1], fam[1]])                 # self pair
         mixes.append([fam[0], fam[2], fam[3 % len(fam)]])   # a triple
-        if fam is c02.GAS:
+        if fam is c02.PPYL:
+            mixes += [['c1ccncc1', 'CC'], ['CC', 'c1ccncc1']]
+        if fam is c02.GAS or (thorough and fam is c02.PPYL):
             mixes.append(['c1ccccc1', 'C1CCCCC1'])      # molecule-level prefixes see the whole input
             mixes.append(['CC', 'C=C'])
             # a remapped group of the first component whose target occurs natively in the second, and the reverse
             mixes += [['CO', 'CC'], ['CC', 'CO'], ['CC=C', 'CCC'], ['CCC', 'CC=C']]
             # a six-ring with a heteroatom before / after a benzene ring
             mixes += [['C1CCOCC1', 'c1ccccc1'], ['c1ccccc1', 'C1CCOCC1']]
+            # a correction fed by a remap in one component and the correction itself in the other; a triple bond
+            # beside an aromatic ring
+            mixes += [['CC=CC', 'CC=C(C)C'], ['CC=C(C)C', 'CC=CC'], ['c1ccccc1', 'C#C'], ['C#C', 'c1ccccc1']]
         for comps in mixes:
             mix = '.'.join(comps)
             for s in comps + [mix]:
